@@ -21,7 +21,17 @@ Complete small-scope input enumeration on the real code:
                chromosome configurations (3+3 markers: every first chromosome x every physical
                layout x 5 genetic patterns of the second).
 
-States = distinct (class, construction mode, map) configurations; transitions = library
+  layer "pair" two-step histories of ONE matrix over two DIFFERENT maps with the same physical
+               positions: all ordered pairs of distinct genetic patterns on every 1-chromosome
+               layout (+ two-chromosome pairs); the matrix first receives map A's positions (given
+               at construction / interp_genpos(A) / interp_xoprob(A, other function)), then
+               interp_xoprob(B, fn) must leave exactly what a fresh matrix placed on B holds.
+  Chromosome labels: every map spec uses one of two label schemes per seed variant — a
+               non-consecutive one (e.g. 1,3,7 with the absent label 2 in between) or a
+               consecutive one with the first configuration on the larger label (one scheme is
+               0-based) — chosen structurally, so every seed covers both.
+
+States = distinct (class, construction mode, map) configurations and (class, map A, map B) pairs; transitions = library
 calls (constructors and methods); one execution = one (map, row order) or one (function,
 grid point) or one law evaluation.
 """
@@ -42,7 +52,9 @@ RULE = ("fn layer: one case per (map function, grid value, direction); map layer
         "mode, map, row permutation) — construct, compare the whole state with the sorted row list, interpolate at own "
         "markers and segment midpoints — plus per (class, map) one case per law family (interpolation kinds, query "
         "order, gdist1g/2g with every index window, gdist1p/2p, rprob*, interp_gmap, remove/select+build_spline, interp_xoprob on 3 matrix classes "
-        "x 2 map functions x 3 marker sets); distinct = (class, mode, map); non-trivial = a map with at least one "
+        "x 2 map functions x 3 marker sets); pair layer: one case per (class, ordered pair of distinct maps over the same "
+        "physical positions, matrix class, first step in {constructed with positions, interp_genpos(A), interp_xoprob(A)}, map "
+        "function) — result after interp_xoprob(B) must equal a fresh matrix on B; distinct = (class, mode, map); non-trivial = a map with at least one "
         "segment of non-zero slope (interpolation distinguishable from a constant) and, for permutations, an order "
         "that is not already sorted")
 ASSUME = ["libm expm1/log1p/tanh/atanh are accurate to a few ulp (reference for the map functions)",
@@ -59,8 +71,17 @@ ASSUME = ["libm expm1/log1p/tanh/atanh are accurate to a few ulp (reference for 
 # value alphabets, rotated by VERIF_SEED (structure never depends on the seed)
 PHYS = [[0, 10, 20, 35], [3, 4, 50, 1000], [1, 2, 3, 1000000]]
 GEN = [[0.0, 0.1, 0.25, 0.6], [0.05, 0.3, 0.31, 1.2], [0.0, 0.5, 1.5, 3.0]]
-CHRS = [(1, 2, 3), (2, 7, 5), (4, 11, 1)]          # (label A, label B, absent label)
-CHR3 = [4, 9, 20]                                  # label of a third chromosome
+# chromosome-label schemes (label A, label B, label C, absent label), two per seed variant; WHICH scheme a map
+# uses is structural (the `swap` bit of its spec), so every seed exercises both kinds:
+#   swap=False  non-consecutive labels, A < B < C, the absent label lies between / below / above them
+#   swap=True   consecutive labels with A > B (the first configuration sits on the larger label), one scheme 0-based
+LABELS = [[(1, 3, 7, 2), (2, 1, 3, 4)],
+          [(2, 7, 9, 5), (8, 7, 9, 3)],
+          [(4, 11, 20, 1), (1, 0, 2, 5)]]
+
+
+def labels_of(spec, seed):
+    return LABELS[seed % 3][1 if spec[2] else 0]
 MULT = [1.5, 1.25, 1.75]
 CLASSES = ("StandardGeneticMap", "ExtendedGeneticMap")
 FNS = ("Haldane", "Kosambi")
@@ -97,14 +118,13 @@ def map_rows(spec, seed):
     """spec = (cfgA, cfgB or None, swap[, cfgC]) -> canonical rows [(chr, phys, gen, tag)]"""
     cfgA, cfgB, swap = spec[:3]
     cfgC = spec[3] if len(spec) > 3 else None
-    ph, ge, (la, lb, _) = PHYS[seed % 3], GEN[seed % 3], CHRS[seed % 3]
-    if swap:
-        la, lb = lb, la
+    ph, ge = PHYS[seed % 3], GEN[seed % 3]
+    la, lb, lc, _ = labels_of(spec, seed)
     rows = [(la, ph[p], ge[g]) for p, g in zip(*cfgA)]
     if cfgB is not None:
         rows += [(lb, ph[p], ge[g]) for p, g in zip(*cfgB)]
     if cfgC is not None:
-        rows += [(CHR3[seed % 3], ph[p], ge[g]) for p, g in zip(*cfgC)]
+        rows += [(lc, ph[p], ge[g]) for p, g in zip(*cfgC)]
     rows.sort(key=lambda r: (r[0], r[1]))
     return [(c, x, g, i) for i, (c, x, g) in enumerate(rows)]
 
@@ -163,6 +183,11 @@ def shards(tier, seed):
                     j += 1
                 out.append(("map", cls, mode, gi, i, j))
                 i = j
+    npairs = len(pair_specs(tier))
+    step = 140
+    for cls in CLASSES:
+        for lo in range(0, npairs, step):
+            out.append(("pair", cls, lo, min(npairs, lo + step)))
     return out
 
 
@@ -796,8 +821,9 @@ def _laws_interp_gmap(ctx, mc, g, case, own, inside, outside, absentq):
     return ok
 
 
-def _make_gmat(gname, pairs):
-    """Matrix whose column j carries the value j (provenance), markers given in REVERSED order."""
+def _make_gmat(gname, pairs, pre=None):
+    """Matrix whose column j carries the value j (provenance), markers given in REVERSED order.  With `pre` (a genetic
+    map) the matrix is constructed already carrying vrnt_genpos = pre's interpolation and a dummy vrnt_xoprob."""
     pairs = pairs[::-1]
     p = len(pairs)
     qc, qx = _q(pairs)
@@ -809,7 +835,10 @@ def _make_gmat(gname, pairs):
         mat = numpy.tile(col, (2, 2, 1))
     else:
         mat = numpy.tile(col[:, None], (1, 2))
-    m = cls(mat=mat, vrnt_chrgrp=qc, vrnt_phypos=qx)
+    kw = {}
+    if pre is not None:
+        kw = dict(vrnt_genpos=pre.interp_genpos(qc, qx), vrnt_xoprob=numpy.full(p, 0.25, dtype="float64"))
+    m = cls(mat=mat, vrnt_chrgrp=qc, vrnt_phypos=qx, **kw)
     m.group_vrnt()
     return m, pairs
 
@@ -887,9 +916,116 @@ def _laws_xoprob(ctx, mc, g, case, own, inside, outside, absentq):
 
 
 # ----------------------------------------------------------------------------
+# pair layer: two-step histories of one matrix over two DIFFERENT maps with the same physical positions
+def pair_specs(tier):
+    """-> list of (specA, specB): all ordered pairs of distinct congruent genetic patterns on every physical layout of
+    one chromosome (2 and 3 markers), plus two-chromosome pairs over three patterns per chromosome."""
+    out = []
+    for k in (2, 3):
+        cfgs = chrom_configs(k)
+        for p in itertools.combinations(range(4), k):
+            gs = [g for (pp, g) in cfgs if pp == p]
+            for ga in gs:
+                for gb in gs:
+                    if ga != gb:
+                        out.append((((p, ga), None, False), ((p, gb), None, False)))
+    g3 = {2: [(0, 1), (2, 2), (0, 3)], 3: [(0, 1, 3), (1, 1, 2), (0, 0, 0)]}
+    for ka, kb in ((2, 2), (2, 3), (3, 2), (3, 3)):
+        pa, pb = tuple(range(ka)), tuple(range(4 - kb, 4))
+        maps = [((pa, g1), (pb, g2)) for g1 in g3[ka] for g2 in g3[kb]]
+        for sw in ((False, True) if tier == "thorough" else (False,)):
+            for A in maps:
+                for B in maps:
+                    if A != B:
+                        out.append(((A[0], A[1], sw), (B[0], B[1], sw)))
+    return out
+
+
+FIRST_STEPS = ("constructed-with-genpos", "interp_genpos", "interp_xoprob")
+
+
+def run_pair(ctx, clsname, specA, specB, seed):
+    absent = labels_of(specB, seed)[3]
+    mcA = MapCase(clsname, "auto", map_rows(specA, seed), absent)
+    mcB = MapCase(clsname, "auto", map_rows(specB, seed), absent)
+    case = dict(layer="pair", cls=clsname, absent=int(absent),
+                rowsA=[[int(r[0]), int(r[1]), float(r[2])] for r in mcA.rows], rowsB=[[int(r[0]), int(r[1]), float(r[2])] for r in mcB.rows])
+    _run_pair(ctx, mcA, mcB, case)
+
+
+def _run_pair(ctx, mcA, mcB, case):
+    clsname = mcB.clsname
+    gA = build(clsname, "auto", mcA.rows[::-1])
+    gB = build(clsname, "auto", mcB.rows[::-1])
+    ctx.transitions += 2
+    ctx.state(digest(("pair", clsname, [(r[0], r[1], r[2]) for r in mcA.rows], [(r[0], r[1], r[2]) for r in mcB.rows])))
+    own, inside, outside, _ = query_sets(mcB.model, mcB.absent)
+    pairs = own + inside + outside + [(mcB.absent, 4), (mcB.absent, 9)]
+    allok = True
+    for gname in GMATS[:2]:
+        GP = gname + ".interp_xoprob"
+        fresh = {}
+
+        def baseline(gname=gname, fresh=fresh, GP=GP):
+            # what a matrix that never saw another map holds after being placed on map B
+            for name in FNS:
+                m, _ = _make_gmat(gname, pairs)
+                m.interp_xoprob(gB, _cls(name)())
+                ctx.transitions += 3
+                gl = m.vrnt_genpos.tolist()
+                cl = m.vrnt_chrgrp.tolist()
+                exp = [0.5 if (i == 0 or cl[i] != cl[i - 1]) else R.mapfn_nan(name, gl[i] - gl[i - 1]) for i in range(len(cl))]
+                require(close(m.vrnt_genpos, gB.interp_genpos(m.vrnt_chrgrp, m.vrnt_phypos)), GP + ":genpos", "fresh matrix: positions differ from the map's interpolation")
+                require(close(m.vrnt_xoprob, exp), GP + ":xoprob", lambda: f"fresh matrix, {name}: {m.vrnt_xoprob.tolist()} expected {exp}")
+                fresh[name] = (m.vrnt_genpos.copy(), m.vrnt_xoprob.copy())
+        if not ctx.guard(baseline, case=case, sig_prefix=GP + ":"):
+            allok = False
+            continue
+        for first in FIRST_STEPS:
+            for name in FNS:
+                other = FNS[1 - FNS.index(name)]
+
+                def history(gname=gname, first=first, name=name, other=other, GP=GP, fresh=fresh):
+                    if first == "constructed-with-genpos":
+                        m, _ = _make_gmat(gname, pairs, pre=gA)
+                    else:
+                        m, _ = _make_gmat(gname, pairs)
+                        if first == "interp_genpos":
+                            m.interp_genpos(gA)
+                        else:
+                            m.interp_xoprob(gA, _cls(other)())
+                    ctx.transitions += 3
+                    # the matrix now carries map A's positions; a genuinely different map follows
+                    m.interp_xoprob(gB, _cls(name)())
+                    ctx.transitions += 1
+                    ctx.evaluations += 1
+                    gp, xo = fresh[name]
+                    require(close(m.vrnt_genpos, gp), GP + ":stale-genpos",
+                            lambda: f"matrix that already carried positions ({first} on map A {[(r[0], r[1], r[2]) for r in mcA.rows]}) placed on map B "
+                                    f"{[(r[0], r[1], r[2]) for r in mcB.rows]}: vrnt_genpos {m.vrnt_genpos.tolist()}, a fresh matrix on B gets {gp.tolist()}")
+                    require(close(m.vrnt_xoprob, xo), GP + ":stale-xoprob",
+                            lambda: f"after {first} on map A then interp_xoprob(B, {name}): vrnt_xoprob {m.vrnt_xoprob.tolist()}, a fresh matrix on B gets {xo.tolist()}")
+                    # ... and interp_genpos alone must also move the matrix from B back to A
+                    m.interp_genpos(gA)
+                    ctx.transitions += 1
+                    require(close(m.vrnt_genpos, gA.interp_genpos(m.vrnt_chrgrp, m.vrnt_phypos)), gname + ".interp_genpos:stale-genpos",
+                            "interp_genpos(A) after interp_xoprob(B) left positions that are not map A's")
+                    ctx.flag("pair:first:" + first)
+                    ctx.flag(f"pair:{gname}:{name}")
+                ok = ctx.guard(history, case=case, sig_prefix=GP + ":history:")
+                allok &= ok
+                if ok:
+                    ctx.traces += 1
+    ctx.count("map-pairs")
+    ctx.count("map-pairs:%d-chromosome" % len(mcB.model.chroms))
+    if allok and mcA.model.nonconstant() and mcB.model.nonconstant():
+        ctx.nontriv(digest(("pair", case["rowsA"], case["rowsB"], clsname)))
+
+
+# ----------------------------------------------------------------------------
 def run_map_group(ctx, clsname, mode, specs, seed):
-    absent = CHRS[seed % 3][2]
     for spec in specs:
+        absent = labels_of(spec, seed)[3]
         rows = map_rows(spec, seed)
         mc = MapCase(clsname, mode, rows, absent)
         n = mc.n
@@ -914,6 +1050,11 @@ def run_map_group(ctx, clsname, mode, specs, seed):
         ctx.count(f"row-orders:{n}-markers", math.factorial(n))
         ctx.flag(f"mode:{mode}")
         ctx.flag(f"nchrom:{len(mc.model.chroms)}")
+        ch = mc.model.chroms
+        if len(ch) > 1:
+            ctx.flag("labels:consecutive" if all(b - a == 1 for a, b in zip(ch, ch[1:])) else "labels:non-consecutive")
+        if mode == "auto" and sorted(set(ch + [absent])) != list(range(min(ch + [absent]), min(ch + [absent]) + len(set(ch + [absent])))):
+            ctx.flag("labels:non-consecutive-boundary-in-query")
         ctx.flag("congruent" if mc.model.congruent() else "non-congruent")
         if mc.nmid:
             ctx.flag("midpoints")
@@ -929,9 +1070,15 @@ def run_map_group(ctx, clsname, mode, specs, seed):
 
 def run_shard(spec, ctx):
     ctx.bounds.update({"chromosomes_max": "2 (3 with two markers each)", "markers_per_chromosome": "2..3", "position_alphabet": 4,
-                       "row_orders": "all (<= 6!)", "classes": list(CLASSES), "seed_variant": ctx.seed % 3})
+                       "row_orders": "all (<= 6!)", "classes": list(CLASSES), "seed_variant": ctx.seed % 3,
+                       "chromosome_label_schemes": [list(x) for x in LABELS[ctx.seed % 3]], "map_pairs": len(pair_specs(ctx.tier))})
     if spec[0] == "fn":
         run_fn(ctx, spec[1], ctx.seed)
+        return
+    if spec[0] == "pair":
+        _, clsname, lo, hi = spec
+        for specA, specB in pair_specs(ctx.tier)[lo:hi]:
+            run_pair(ctx, clsname, specA, specB, ctx.seed)
         return
     _, clsname, mode, gi, i, j = spec
     gmode, specs = _map_groups(ctx.tier)[gi]
@@ -965,6 +1112,14 @@ def finalize(ctx, tier, seed):
     for gname in GMATS[:2]:
         for f in FNS:
             assert f"xoprob:{gname}:{f}" in ctx.flags, (gname, f)
+    for f in FIRST_STEPS:
+        assert "pair:first:" + f in ctx.flags, f
+    for gname in GMATS[:2]:
+        for f in FNS:
+            assert f"pair:{gname}:{f}" in ctx.flags, (gname, f)
+    assert ctx.counters.get("map-pairs:1-chromosome", 0) > 1000 and ctx.counters.get("map-pairs:2-chromosome", 0) > 100
+    for f in ("labels:non-consecutive", "labels:consecutive", "labels:non-consecutive-boundary-in-query"):
+        assert f in ctx.flags, f
     assert ctx.counters.get("row-orders-needing-sort", 0) > 1000
     assert ctx.counters.get("gdist2g-windows", 0) > 1000 and ctx.counters.get("gdist1g-windows", 0) > 100
     assert len(ctx.outcomes) > 500, len(ctx.outcomes)
@@ -974,6 +1129,11 @@ def finalize(ctx, tier, seed):
 def replay(case, ctx):
     if case["layer"] == "fn":
         run_fn(ctx, case["fn"], case["seed"])
+        return
+    if case["layer"] == "pair":
+        mcA = MapCase(case["cls"], "auto", [(int(c), int(x), float(g), i) for i, (c, x, g) in enumerate(case["rowsA"])], case["absent"])
+        mcB = MapCase(case["cls"], "auto", [(int(c), int(x), float(g), i) for i, (c, x, g) in enumerate(case["rowsB"])], case["absent"])
+        _run_pair(ctx, mcA, mcB, case)
         return
     rows = [(int(c), int(x), float(g), i) for i, (c, x, g) in enumerate(case["rows"])]
     mc = MapCase(case["cls"], case["mode"], rows, case["absent"])
